@@ -78,6 +78,25 @@ def _ints(fn):
     return sorted(n.value for n in ast.walk(fn) if isinstance(n, ast.Constant) and type(n.value) is int)
 
 
+def _expr(e, names) -> str:
+    """Boolean/arithmetic expression over integer variables -> Lean proposition text."""
+    if isinstance(e, ast.BoolOp):
+        op = " ∨ " if isinstance(e.op, ast.Or) else " ∧ "
+        return "(" + op.join(_expr(v, names) for v in e.values) + ")"
+    if isinstance(e, ast.Compare) and len(e.ops) == 1:
+        ops = {ast.Lt: "<", ast.LtE: "≤", ast.Gt: ">", ast.GtE: "≥", ast.Eq: "=", ast.NotEq: "≠"}
+        if type(e.ops[0]) not in ops:
+            raise P.Untranslatable("comparison operator")
+        return "(" + _expr(e.left, names) + " " + ops[type(e.ops[0])] + " " + _expr(e.comparators[0], names) + ")"
+    if isinstance(e, ast.BinOp) and isinstance(e.op, (ast.Add, ast.Sub)):
+        return "(" + _expr(e.left, names) + (" + " if isinstance(e.op, ast.Add) else " - ") + _expr(e.right, names) + ")"
+    if isinstance(e, ast.Name) and e.id in names:
+        return e.id
+    if isinstance(e, ast.Constant) and type(e.value) is int:
+        return str(e.value)
+    raise P.Untranslatable("expression outside the translated subset: " + ast.dump(e)[:80])
+
+
 def generate(lean_dir: str):
     mod = P.parse_file(SRC)
     base = _cls(mod, "PDFStandardSecurityHandler")
@@ -181,6 +200,34 @@ def generate(lean_dir: str):
     if len(np_) != 1:
         raise P.Untranslatable("_normalize_password: one [:n] slice expected")
     out.append(f"def UTF8_PASSWORD_MAX : Nat := {np_[0]}\n\n")
+
+    # _r6_password: the `while` test of Algorithm 2.B, translated as an expression over Int
+    r6 = _method(v5, "_r6_password")
+    whiles = [n for n in ast.walk(r6) if isinstance(n, ast.While)]
+    if len(whiles) != 1:
+        raise P.Untranslatable("_r6_password: exactly one while loop expected")
+    out.append("/-- the `while` condition of `_r6_password` (translated verbatim) -/\n")
+    out.append("def r6_continue (round_no : Int) (last_byte_val : Int) : Bool :=\n  decide ("
+               + _expr(whiles[0].test, {"round_no", "last_byte_val"}) + ")\n\n")
+    # ... and the (key, iv) slices and the repetition count of the round function
+    k1 = [n for n in ast.walk(r6) if isinstance(n, ast.BinOp) and isinstance(n.op, ast.Mult)
+          and isinstance(n.right, ast.Constant) and isinstance(n.right.value, int)]
+    if len(k1) != 1:
+        raise P.Untranslatable("_r6_password: `(...) * <int>` expected once")
+    out.append(f"def R6_REPEAT : Nat := {k1[0].right.value}\n\n")
+    sl = []
+    for n in ast.walk(r6):
+        if isinstance(n, ast.Subscript) and isinstance(n.slice, ast.Slice) and isinstance(n.value, ast.Name):
+            lo = n.slice.lower.value if isinstance(n.slice.lower, ast.Constant) else 0
+            hi = n.slice.upper.value if isinstance(n.slice.upper, ast.Constant) else -1
+            sl.append((n.lineno, n.col_offset, n.value.id, lo, hi))
+    sl = [(v, lo, hi) for _, _, v, lo, hi in sorted(sl)]
+    if sl != [("k", 0, 16), ("k", 16, 32), ("e", 0, 16), ("k", 0, 32)]:
+        raise P.Untranslatable(f"_r6_password: unexpected slices {sl}")
+    tup = [n for n in ast.walk(r6) if isinstance(n, ast.Assign) and isinstance(n.targets[0], ast.Name)
+           and n.targets[0].id == "hashes"]
+    if len(tup) != 1 or [e.id for e in tup[0].value.elts] != ["sha256", "sha384", "sha512"]:
+        raise P.Untranslatable("_r6_password: hashes = (sha256, sha384, sha512) expected")
 
     # _saslprep.py: the tuple of prohibited-output tables, the unassigned table, the mapping target
     sp = P.parse_file("pdfminer/_saslprep.py")
